@@ -590,6 +590,24 @@ def jpeg_flags(d):
     return {"jpeg_standalone_marker": standalone, "jpeg_en_clash": clash, "jpeg_short_app11": short, "jpeg_fill": m["fill"] > 0}
 
 
+def bmff_chunk_offsets(d):
+    """all stco / co64 entries of a BMFF file, in file order"""
+    out = []
+
+    def walk(off, end):
+        for t, o, hs, sz in bmff_boxes(d, off, end):
+            if t in (b"moov", b"trak", b"mdia", b"minf", b"stbl"):
+                walk(o + hs, o + sz)
+            elif t == b"stco":
+                n = struct.unpack(">I", d[o + hs + 4:o + hs + 8])[0]
+                out.extend(struct.unpack(">I", d[o + hs + 8 + 4 * k:o + hs + 12 + 4 * k])[0] for k in range(n))
+            elif t == b"co64":
+                n = struct.unpack(">I", d[o + hs + 4:o + hs + 8])[0]
+                out.extend(struct.unpack(">Q", d[o + hs + 8 + 8 * k:o + hs + 16 + 8 * k])[0] for k in range(n))
+    walk(0, len(d))
+    return out
+
+
 EXTRACTORS = {"png": media_png, "jpeg": media_jpeg, "gif": media_gif, "riff": media_riff, "bmff": media_bmff}
 
 
